@@ -116,13 +116,38 @@ Definition richcompare (a b : obj) (op : cmpop) : res :=
     | s => res_of_slot s fallback
     end.
 
-(* cdata_hash / hash() *)
+(* cdata_hash / hash(): the interpreter of the regenerated program C17/Gen.v hash_prog (arms of
+   cdata_hash in source order, then `return _Py_HashPointer(c_data)`).
+   raw = Some n  iff the ctype has CT_PRIMITIVE_SIGNED and CT_PRIMITIVE_FITS_LONG, n the value that
+   read_raw_signed_data gives; only shortcut arms look at it (the current source has none). *)
+Definition hash_arm (arm : harm) (c : conv) (raw : option Z) : option hres :=   (* None: fall through *)
+  match arm with
+  | HConvert =>
+      match c with
+      | CvVal x => Some (py_hash x)          (* !CData_Check(vv): PyObject_Hash(vv) *)
+      | CvErr => Some (HErr ConvError)       (* vv == NULL: return -1 *)
+      | CvCData => None                      (* vv is a cdata again (long double) *)
+      end
+  | HNonnegSelf =>
+      match raw with
+      | Some n => if 0 <=? n then Some (HOk n) else None
+      | None => None
+      end
+  end.
+Fixpoint hash_prim (p : list harm) (self : Z) (c : conv) (raw : option Z) : hres :=
+  match p with
+  | [] => HOk (hash_pointer self)
+  | arm :: t => match hash_arm arm c raw with Some r => r | None => hash_prim t self c raw end
+  end.
+
+(* hash() of an object.  Every arm is guarded by a CT_PRIMITIVE_* flag test, so pointer-like cdata go to the
+   final _Py_HashPointer.  The abstract VPrim does not carry the raw integer (raw = None here); the
+   statements that a primitive INTEGER cdata hashes as its value for every value are made on hash_prim /
+   int_cdata_hash below with the raw value given (C17_prim_hash_every_value, C17_int_cdata_hash_every_value). *)
 Definition hash (a : obj) : hres :=
   match oval a with
   | VPtr _ addr => HOk (hash_pointer addr)
-  | VPrim self (CvVal x) => py_hash x
-  | VPrim self CvCData => HOk (hash_pointer self)
-  | VPrim self CvErr => HErr ConvError
+  | VPrim self c => hash_prim hash_prog self c None
   | VPy x => py_hash x
   end.
 
@@ -132,6 +157,16 @@ Arguments CvVal {pyval}. Arguments CvCData {pyval}. Arguments CvErr {pyval}.
 Arguments VPtr {pyval}. Arguments VPrim {pyval}. Arguments VPy {pyval}.
 Arguments Build_obj {pyval}. Arguments oid {pyval}. Arguments oval {pyval}.
 Arguments is_cdata {pyval}. Arguments is_ptr {pyval}.
+
+(* ---- primitive integer cdata concretely: the converted value is the Python int of the same value, and
+   CPython's long_hash (Objects/longobject.c, 64-bit: _PyHASH_MODULUS = 2^61-1) is
+   sign(v) * (|v| mod (2^61-1)), with -1 replaced by -2 *)
+Definition pyint_hash (v : Z) : Z :=
+  let h := Z.sgn v * (Z.abs v mod (2 ^ 61 - 1)) in
+  if h =? -1 then -2 else h.
+(* hash() of an integer cdata holding v, under program p; signed / fits_long are the ctype's flags *)
+Definition int_cdata_hash (p : list harm) (signed fits_long : bool) (self v : Z) : hres :=
+  hash_prim Z (fun x => HOk (pyint_hash x)) p self (CvVal v) (if signed && fits_long then Some v else None).
 
 (* ---- executable instance for the correspondence check: Python values are indices 0/1 (the
         value of operand a / of operand b), CPython's answers on them are given as tables *)
